@@ -4,7 +4,7 @@
 From Coq Require Import List String Ascii ZArith NArith Bool Lia.
 From Qryn Require Import model.IngestRobust model.IngestPipe proofs.IngestPipeProofs.
 From Qryn Require Import model.Ingest model.PushHandler model.IngestSpec model.IngestBridge.
-From Qryn Require Import proofs.IngestBase proofs.IngestSpecProofs.
+From Qryn Require Import proofs.IngestBase proofs.IngestSpecProofs proofs.IngestAck.
 Import ListNotations.
 Open Scope string_scope.
 
@@ -549,6 +549,12 @@ Section BRIDGE.
         destruct it as [c|]; cbn [item_ok item_wf] in *; [|reflexivity].
         apply forallb_forall. intros y Hy. rewrite forallb_forall in W. now apply IngestAck.wf_ok_req, W.
   Qed.
+
+  (* ... and C01's acknowledgement monitor accepts them: success only with every cell in an accepted block *)
+  Theorem parsed_pushes_ack cfg n tr g es :
+    Forall act_parsed tr -> grun (ginit cfg n) tr = Some (g, es) ->
+    run_mon (amon_step true) (amon_init (List.length cfg)) es <> None.
+  Proof. intros H R. exact (ack_sound_gen _ _ _ _ _ _ (trace_wf_ok _ (act_parsed_wf tr H)) R). Qed.
 End BRIDGE.
 
 Lemma bridge_model_ok :
